@@ -1,3 +1,135 @@
 import BB.Driver.Util
-/-! Placeholder driver for C11 (replaced when the model is built). -/
-def main : IO Unit := BB.Driver.loop (fun (s : Unit) _ => (s, "unimplemented")) ()
+import BB.Model.Mirrored
+/-!
+Line-protocol driver of the C11 model (BB.Mirrored).
+
+    init <ab> <ba>                     strategies of replicatorAToB / replicatorBToA: local | noop; resets everything
+    place <k> <A|B|AB|-> <vA> <vB>     set what the replicas hold for key k (value ignored where absent)
+    fault <A|B> <get|getc|put|fm|caps> <idx> <code>   call #idx of that method on that replica fails with that code
+    get <k> | getc <k>                 -> val <v> | err ...
+    put <k> <v> <pref>                 -> ok | err ...
+    fm <pref1> <pref2> <k>*            -> missing <k>* | err ...
+    caps                               -> ok | err ...
+    state                              -> contents and call counters of both replicas, round
+
+An error is rendered `err <code> <tag>/.../<origin>`.
+-/
+open BB.Driver BB.Mirrored
+
+structure S where
+  cfg : Cfg := ⟨.local, .local⟩
+  p : Pair := ⟨fun _ => ⟨fun _ => none, fun _ _ => none, fun _ => 0⟩, 0⟩
+  keys : List Nat := []
+
+def side? : String → Option Side
+  | "A" => some .A
+  | "B" => some .B
+  | _ => none
+
+def meth? : String → Option Meth
+  | "get" => some .get
+  | "getc" => some .getc
+  | "put" => some .put
+  | "fm" => some .fm
+  | "caps" => some .caps
+  | _ => none
+
+def strat? : String → Option Strat
+  | "local" => some .local
+  | "noop" => some .noop
+  | _ => none
+
+def showSide : Side → String
+  | .A => "A"
+  | .B => "B"
+
+def showMeth : Meth → String
+  | .get => "get"
+  | .getc => "getc"
+  | .put => "put"
+  | .fm => "fm"
+  | .caps => "caps"
+
+def showTag : Tag → String
+  | .backend s => showSide s
+  | .repl => "repl"
+  | .dig k => s!"k{k}"
+  | .sync s => "sync" ++ showSide s
+  | .incons s => "incons" ++ showSide s
+  | .sinkAbsent => "sinkabsent"
+
+def showOrigin : Origin → String
+  | .fault s m i => s!"fault.{showSide s}.{showMeth m}.{i}"
+  | .absent s k => s!"absent.{showSide s}.{k}"
+
+def showErr (e : Err) : String :=
+  s!"err {e.code} " ++ "/".intercalate (e.tags.map showTag ++ [showOrigin e.origin])
+
+def showReply : Reply → String
+  | .val v => s!"val {v}"
+  | .unit => "ok"
+  | .missing ks => if ks.isEmpty then "missing -" else "missing " ++ " ".intercalate (ks.map toString)
+  | .err e => showErr e
+
+def insertKey (k : Nat) (ks : List Nat) : List Nat :=
+  if ks.contains k then ks else (k :: ks).mergeSort (· ≤ ·)
+
+def setStore (p : Pair) (s : Side) (k : Nat) (v : Option Nat) : Pair :=
+  let r := p.rep s
+  p.setRep s { r with store := fun k' => if k' = k then v else r.store k' }
+
+def addFault (p : Pair) (s : Side) (m : Meth) (i : Nat) (c : Nat) : Pair :=
+  let r := p.rep s
+  p.setRep s { r with script := fun m' i' => if m' = m ∧ i' = i then some c else r.script m' i' }
+
+def showReplica (keys : List Nat) (r : Replica) : String :=
+  let items := keys.filterMap fun k => (r.store k).map fun v => s!"{k}={v}"
+  let c := " ".intercalate ([Meth.get, .getc, .put, .fm, .caps].map fun m => s!"{showMeth m}={r.cnt m}")
+  (if items.isEmpty then "-" else ",".intercalate items) ++ " " ++ c
+
+def runOp (s : S) (o : Op) : S × String :=
+  let r := step s.cfg s.p o
+  ({ s with p := r.1 }, showReply r.2)
+
+def stepD (s : S) (line : String) : S × String :=
+  match words line with
+  | ["init", ab, ba] =>
+    match strat? ab, strat? ba with
+    | some ab, some ba => ({ cfg := ⟨ab, ba⟩ }, "ok")
+    | _, _ => (s, "bad-op")
+  | ["place", k, w, va, vb] =>
+    match nat? k, nat? va, nat? vb with
+    | some k, some va, some vb =>
+      let inA := w == "A" || w == "AB"
+      let inB := w == "B" || w == "AB"
+      if !(inA || inB || w == "-") then (s, "bad-op") else
+      let p := setStore s.p .A k (if inA then some va else none)
+      let p := setStore p .B k (if inB then some vb else none)
+      ({ s with p := p, keys := insertKey k s.keys }, "ok")
+    | _, _, _ => (s, "bad-op")
+  | ["fault", sd, m, i, c] =>
+    match side? sd, meth? m, nat? i, nat? c with
+    | some sd, some m, some i, some c => ({ s with p := addFault s.p sd m i c }, "ok")
+    | _, _, _, _ => (s, "bad-op")
+  | ["get", k] =>
+    match nat? k with
+    | some k => runOp { s with keys := insertKey k s.keys } (.get k)
+    | none => (s, "bad-op")
+  | ["getc", k] =>
+    match nat? k with
+    | some k => runOp { s with keys := insertKey k s.keys } (.getc k)
+    | none => (s, "bad-op")
+  | ["put", k, v, pref] =>
+    match nat? k, nat? v, side? pref with
+    | some k, some v, some pref => runOp { s with keys := insertKey k s.keys } (.put k v pref)
+    | _, _, _ => (s, "bad-op")
+  | "fm" :: p1 :: p2 :: ks =>
+    match side? p1, side? p2, allNats? ks with
+    | some p1, some p2, some ks => runOp s (.fm ks p1 p2)
+    | _, _, _ => (s, "bad-op")
+  | ["caps"] => runOp s .caps
+  | ["state"] =>
+    (s, s!"A {showReplica s.keys (s.p.rep .A)} | B {showReplica s.keys (s.p.rep .B)} | round {s.p.round}")
+  | _ => (s, "bad-op")
+
+def main : IO Unit := loop stepD {}
